@@ -33,7 +33,7 @@ func init() {
 		Exhaustive: func(string) bool { return false },
 		Finish: func(st *Stats, cov map[string]any, tier string) string {
 			cov["exhaustive_within_case"] = true
-			cov["explanation_exhaustive"] = "every call position of every sampled case is faulted (exhaustive within the case); the cases themselves are sampled"
+			cov["explanation_exhaustive"] = "every call position of every sampled case is faulted (exhaustive within the case) when the fault-free sequence has at most 300 calls; for the rare scale cases (hundreds to thousands of calls) both ends, every write, the usual thresholds and about 60 evenly spaced positions are faulted; the cases themselves are sampled"
 			if st.Counters["prefix_diverged"] > 0 {
 				return "the storage-call prefix before an injected fault differed from the fault-free run: the execution is not deterministic"
 			}
@@ -223,6 +223,10 @@ func genC13(seed uint64, i int, tier string) *Scenario {
 	}
 	t := c13Templates[i%len(c13Templates)]
 	size := pick(r, []int{0, 1, 3, 6, 12, 20, 35, 50})
+	if r.Chance(0.003) {
+		// scale: hundreds of storage calls per statement (fault positions are then sampled, see runC13)
+		size = pick(r, []int{260, 400, 1100})
+	}
 	if tier == "thorough" && r.Chance(0.2) {
 		size = r.Range(0, 70)
 	}
@@ -365,6 +369,9 @@ func runC13(sc *Scenario, st *Stats) []Violation {
 		}
 	} else {
 		for i := range base {
+			if n := len(base); n > 300 && !(i < 20 || i >= n-20 || i%(n/60+1) == 0 || isMutating(base[i].Op) || i == 255 || i == 256 || i == 299 || i == 300 || i == 1023 || i == 1024) {
+				continue // long sequences: both ends, every (n/60)-th call, every write, and the usual thresholds
+			}
 			plan = append(plan, fk{r0.EvFrom + i, FErr, 0})
 			if isMutating(base[i].Op) {
 				plan = append(plan, fk{r0.EvFrom + i, FApplied, 0})
